@@ -505,6 +505,18 @@ impl Callbacks for Cb {
         for def in tcx.hir_body_owners() {
             let did = def.to_def_id();
             let kind = tcx.def_kind(did);
+            if matches!(kind, DefKind::Const { .. } | DefKind::AssocConst { .. }) {
+                // named constants (`CommittedPrefixEnd::ZERO`): their value is part of the protocol
+                let name = with_no_trimmed_paths!(tcx.def_path_str(did));
+                let body = tcx.mir_for_ctfe(def);
+                if !first {
+                    out.push_str(",\n");
+                }
+                first = false;
+                ex.body(did, &name, "const", body, &mut out);
+                nbodies += 1;
+                continue;
+            }
             if !matches!(kind, DefKind::Fn | DefKind::AssocFn | DefKind::Closure) {
                 continue;
             }
